@@ -66,22 +66,26 @@ func (s *Server) HandleBefore(
 // is not one of these, clientID is an empty string and err is nil.
 func (s *Server) clientIDFromDNSContext(pctx *proxy.DNSContext) (clientID string, err error) {
 	proto := pctx.Proto
+	pathClientID := ""
 	if proto == proxy.ProtoHTTPS {
-		clientID, err = clientIDFromDNSContextHTTPS(pctx)
+		pathClientID, err = clientIDFromDNSContextHTTPS(pctx)
 		if err != nil {
 			return "", fmt.Errorf("checking url: %w", err)
-		} else if clientID != "" {
-			return clientID, nil
+		} else if pathClientID != "" && !s.conf.TLSConf.StrictSNICheck {
+			return pathClientID, nil
 		}
 
-		// Go on and check the domain name as well.
+		// Go on and check the domain name as well.  With the strict check
+		// enabled, it's also done for the requests that have the ClientID in
+		// their path, since a server name outside of the configured domain
+		// must be rejected regardless.
 	} else if proto != proxy.ProtoTLS && proto != proxy.ProtoQUIC {
 		return "", nil
 	}
 
 	hostSrvName := s.conf.TLSConf.ServerName
 	if hostSrvName == "" {
-		return "", nil
+		return pathClientID, nil
 	}
 
 	cliSrvName, err := clientServerName(pctx, proto)
@@ -96,6 +100,11 @@ func (s *Server) clientIDFromDNSContext(pctx *proxy.DNSContext) (clientID string
 	)
 	if err != nil {
 		return "", fmt.Errorf("clientid check: %w", err)
+	}
+
+	if pathClientID != "" {
+		// The ClientID from the path takes precedence.
+		return pathClientID, nil
 	}
 
 	return clientID, nil
